@@ -1,6 +1,7 @@
 import Driver.Util
 import Driver.MsgCodec
 import FitModel.Typed
+import FitModel.TypedFactory
 import FitModel.ProfileSpec
 import FitModel.Generated.Mesgdef
 import FitModel.Generated.ProfileTables
@@ -23,18 +24,6 @@ def tableOf (name : String) : Option MesgTable :=
   Fit.Gen.Mesgdef.tables.find? (·.name == p)
 
 /-! ### factories -/
-
-def unknownBase (num : Nat) : FieldBase :=
-  { num := num, baseType := 0, array := false, accumulate := false, scale := f64One, offset := 0, nameKnown := false, profileBool := false }
-
-/-- `factory.StandardFactory().CreateField(mesgNum, num)` from the dump of the factory -/
-def stdBase (mesgNum num : Nat) : FieldBase :=
-  match Fit.Gen.Prof.mesgs.find? (·.num == mesgNum) with
-  | none => unknownBase num
-  | some m => match m.fields.find? (·.num == num) with
-    | none => unknownBase num
-    | some f => { num := f.num, baseType := f.baseType, array := f.array, accumulate := f.acc, scale := f.scale, offset := f.offset,
-                  nameKnown := f.name != 0x1756e6b6e6f776e /- "unknown" -/, profileBool := f.ptype == 0x1626f6f6c /- "bool" -/ }
 
 inductive Fac | std | unk | alt | nil
   deriving BEq
